@@ -108,17 +108,22 @@ def c02Check (T R : Nat) (tr : List Obs) : Bool := (runSteps (c02Step T R) .idle
 
 /-! ### C01 / C08: what is delivered -/
 
-/-- DATA packets sent to the client, retransmissions removed (a retransmission is
-byte-identical to, and directly follows, the packet it repeats) -/
-def dataFirsts : List Obs → List Bytes
+/-- DATA packets sent to the client, in order, retransmissions included -/
+def clientData : List Obs → List Bytes
   | [] => []
   | .send _ dst p :: rest =>
-    if dst = 0 ∧ opcodeOf p = some opDATA then
-      match dataFirsts rest with
-      | q :: more => if p = q then q :: more else p :: q :: more
-      | [] => [p]
-    else dataFirsts rest
-  | _ :: rest => dataFirsts rest
+    if dst = 0 ∧ opcodeOf p = some opDATA then p :: clientData rest else clientData rest
+  | _ :: rest => clientData rest
+
+/-- adjacent duplicates removed -/
+def dedupAdj : List Bytes → List Bytes
+  | [] => []
+  | [x] => [x]
+  | x :: y :: r => if x = y then dedupAdj (y :: r) else x :: dedupAdj (y :: r)
+
+/-- DATA packets sent to the client, retransmissions removed (a retransmission is
+byte-identical to, and directly follows, the packet it repeats) -/
+def dataFirsts (tr : List Obs) : List Bytes := dedupAdj (clientData tr)
 
 /-- the ideal DATA packets for a payload sequence: numbered 1, 2, …, continuing at the
 wrap value after MAX_BLOCK_NUMBER, cut where the counter overflows without a wrap value -/
@@ -246,30 +251,27 @@ def firstClientSend : List Obs → Option Bytes
   | .send _ dst p :: rest => if dst = 0 then some p else firstClientSend rest
   | _ :: rest => firstClientSend rest
 
-/-- C07 checker: the first datagram to the client is the OACK the negotiation prescribes
-(or DATA when nothing was accepted), no OACK anywhere else, and — when the transfer
-completed — the acknowledged tsize equals the bytes delivered. Block size, interval and
-"block 1 only after ACK 0" are enforced through `c01Check`/`c02Check` run with the
-negotiated values. -/
-def c07Check (neg : Negotiated) (tr : List Obs) : Bool :=
-  let first := firstClientSend tr
-  let oackCount := countObs (fun o => match o with
-    | .send _ dst p => dst == 0 && opcodeOf p == some opOACK
-    | _ => false) (tr.filter (fun o => match o with
-      | .send _ _ _ => true
-      | _ => false))
-  if neg.oack.isEmpty then oackCount == 0
-  else
-    -- all transmissions of the OACK are identical (retransmissions) and it comes first
-    first == some (oackPacket neg.oack) &&
-    (tr.all (fun o => match o with
-      | .send _ dst p => !(dst == 0 && opcodeOf p == some opOACK) || p == oackPacket neg.oack
-      | _ => true))
+/-- every datagram sent to the client satisfies `q` -/
+def clientSendsSat (q : Bytes → Bool) (obs : List Obs) : Bool :=
+  obs.all (fun o => match o with
+    | .send _ dst p => dst != 0 || q p
+    | _ => true)
 
-/-- tsize acknowledged = bytes transferred (for a completed transfer) -/
+/-- C07 checker: when the negotiation accepted nothing no OACK is ever sent; otherwise the first
+datagram to the client is the OACK the negotiation prescribes and every OACK sent is that very
+packet (retransmissions). Block size, interval and "block 1 only after ACK 0" are enforced through
+`c01Check`/`c02Check` run with the negotiated values. -/
+def c07Check (neg : Negotiated) (tr : List Obs) : Bool :=
+  if neg.oack.isEmpty then clientSendsSat (fun p => opcodeOf p != some opOACK) tr
+  else
+    firstClientSend tr == some (oackPacket neg.oack) &&
+    clientSendsSat (fun p => opcodeOf p != some opOACK || p == oackPacket neg.oack) tr
+
+/-- tsize acknowledged = bytes transferred (for a completed transfer), printed canonically -/
 def tsizeMatches (neg : Negotiated) (tr : List Obs) (completed : Bool) : Bool :=
   match dictGet neg.oack optTsize with
   | none => true
-  | some v => !completed || (isPosInt v || v == ['0']) && parseNat v == (payloadsOf (dataFirsts tr)).flatten.length
+  | some v => !completed ||
+      (showNat (parseNat v) == v && parseNat v == (payloadsOf (dataFirsts tr)).flatten.length)
 
 end Vinegar.Tftp
